@@ -592,3 +592,6 @@ def replay(w):
     finally:
         b.cleanup()
     return res.violations
+
+
+RULE += ' Also: an EMPTY encoding received through parse / FromString / load (until EOF, SIZE_DELIMITED, size 0) reports serialized_on_wire; assigning a default inside a plain sub-message gives the same bytes and flag with and without reading it first; presence through dump/load SIZE_DELIMITED equals presence through bytes/parse.'
